@@ -69,6 +69,29 @@ class CT(pg.Object):
 class CD(pg.Object):
   m: pg.typing.Dict([(pg.typing.StrKey(), pg.typing.Int())])
   n: pg.typing.List(pg.typing.Object(CT), default=[])
+# classes whose fields have defaults of every kind: the serialization-option sweep
+class OI(pg.Object):
+  x: int = 1
+  y: str = 'a'
+class OE(pg.Object):
+  pass
+class OO(pg.Object):
+  n: pg.typing.Object(OI).noneable()                                     # default None
+  s: int = 5                                                             # scalar default
+  a: pg.typing.Object(OI, default=OI())                                  # default: the all-default instance
+  b: pg.typing.Object(OI, default=OI(x=7))                               # default: a non-default instance
+  le: pg.typing.List(pg.typing.Object(OI), default=[])                   # default: empty list
+  ln: pg.typing.List(pg.typing.Object(OI), default=[OI(x=7)])            # default: non-empty list
+  li: pg.typing.List(pg.typing.Int(), default=[1, 2])
+  d: pg.typing.Dict([('p', pg.typing.Int(default=1)), ('q', pg.typing.Object(OI).noneable())])   # default generated from the schema
+  dn: pg.typing.Dict([('p', pg.typing.Int(default=1))]).noneable()       # dict, default None
+  da: pg.typing.Dict(default={'k': 1})                                   # free-form dict with a non-empty default
+  y: pg.typing.Any(default=OI(x=3))
+  e: pg.typing.Object(OE).noneable()                                     # a class without members, default None
+  t: pg.typing.Tuple([pg.typing.Int(), pg.typing.Object(OI)], default=(0, OI()))
+  u: pg.typing.Union([pg.typing.Int(), pg.typing.Object(OI), pg.typing.List(pg.typing.Int())], default=0)
+  z: pg.typing.Int().freeze(7)
+  r: pg.typing.Any()                                                     # required
 """
 
 def _define_classes(pg_):
@@ -76,11 +99,11 @@ def _define_classes(pg_):
   g = globals()
   ns = dict(pg=pg_, __name__=__name__)
   exec(compile(_CLASS_SRC, __file__ + ':classes', 'exec'), ns)
-  for n in ('CA', 'CB', 'CC', 'CT', 'CD'):
+  for n in ('CA', 'CB', 'CC', 'CT', 'CD', 'OI', 'OE', 'OO'):
     g[n] = ns[n]
   CA, CB, CC, CT, CD = (ns[n] for n in ('CA', 'CB', 'CC', 'CT', 'CD'))
   _PG['classes'] = dict(CA=CA, CB=CB, CC=CC)
-  _PG['typed'] = dict(CT=CT, CD=CD)
+  _PG['typed'] = dict(CT=CT, CD=CD, OI=ns['OI'], OE=ns['OE'], OO=ns['OO'])
   _PG['by_key'] = {c.__serialization_key__: c for c in (CA, CB, CC)}
   _PG['fields'] = {CA.__serialization_key__: ['x', 'y'], CB.__serialization_key__: [], CC.__serialization_key__: ['z']}
 
@@ -1133,6 +1156,89 @@ def random_specials(r, n, vg):
       out.append((which, 'random', (lambda w=which, sp=sp, ds=ds, dna=dna: dict(hyper=sp, **{'dna-spec': ds, 'dna': dna})[w])))
   return out
 
+# ------------------------------------------------------------------------------------------------
+# every serialization option x fields with defaults of every kind x values equal to / near the default
+def option_field_values():
+  """field -> candidate values (builders): the default itself, all-default instances, empty containers, non-default values"""
+  p = pg()
+  OI, OE, OO = _PG['typed']['OI'], _PG['typed']['OE'], _PG['typed']['OO']
+  return dict(
+      n=[lambda: None, lambda: OI(), lambda: OI(x=2), lambda: OI(1, 'a')],
+      s=[lambda: 5, lambda: 0, lambda: -3],
+      a=[lambda: OI(), lambda: OI(x=7), lambda: OI(y='')],
+      b=[lambda: OI(x=7), lambda: OI(), lambda: OI(x=7, y='b')],
+      le=[lambda: [], lambda: [OI()], lambda: [OI(), OI()], lambda: [OI(x=7)]],
+      ln=[lambda: [OI(x=7)], lambda: [], lambda: [OI()], lambda: [OI(), OI()], lambda: [OI(x=7), OI(x=7)]],
+      li=[lambda: [1, 2], lambda: [], lambda: [0]],
+      d=[lambda: dict(p=1, q=None), lambda: dict(p=2), lambda: dict(q=OI()), lambda: dict(p=1, q=OI(x=2))],
+      dn=[lambda: None, lambda: dict(), lambda: dict(p=1), lambda: dict(p=3)],
+      da=[lambda: {'k': 1}, lambda: {}, lambda: {'k': 2}, lambda: {'j': OI()}],
+      y=[lambda: OI(x=3), lambda: OI(), lambda: None, lambda: [], lambda: {}, lambda: OE(), lambda: 3, lambda: (OI(),)],
+      e=[lambda: None, lambda: OE()],
+      t=[lambda: (0, OI()), lambda: (1, OI()), lambda: (0, OI(x=2))],
+      u=[lambda: 0, lambda: OI(), lambda: [], lambda: [0], lambda: OI(x=0)],
+      r=[lambda: 0, lambda: None, lambda: OI(), lambda: [], lambda: {}, lambda: OO(r=OI()), lambda: [OI(), {'k': OI()}]],
+  )
+
+OPTION_SPACE = dict(hide_default_values=[False, True], hide_frozen=[True, False], use_inferred=[False, True])
+
+def option_combos():
+  import itertools
+  keys = sorted(OPTION_SPACE)
+  for vals in itertools.product(*[OPTION_SPACE[k] for k in keys]):
+    yield dict(zip(keys, vals))
+
+def option_oracle(make, opts, exclude, label, thorough=True):
+  """[(signature, what)]: the value built by make() through every form of the round trip under the given options"""
+  p = pg()
+  OO = _PG['typed']['OO']
+  hits = []
+  v = make()
+  kw = dict(opts)
+  expected = v
+  if exclude:
+    kw['exclude_keys'] = list(exclude)
+    if isinstance(v, OO):
+      expected = v.clone(deep=True, override={k: OO.__schema__[k].default_value for k in exclude})
+  tag = ','.join('%s=%s' % (k, int(bool(x))) for k, x in sorted(opts.items()) if x != OPTION_SPACE[k][0]) or 'defaults'
+  if exclude: tag += ',exclude_keys'
+  forms = [('to_json', lambda: p.from_json(p.to_json(v, **kw))),
+           ('to_json_str', lambda: p.from_json_str(p.to_json_str(v, **kw))),
+           ('to_json_str-indent', lambda: p.from_json_str(p.to_json_str(v, json_indent=2, **kw))),
+           ('save-load', lambda: (p.save(v, '/mem/opt/v.json', **kw), p.load('/mem/opt/v.json'))[1])]
+  if thorough:
+    forms += [('method-to_json', lambda: p.from_json(v.to_json(**kw))),
+              ('save-load-indent', lambda: (p.save(v, '/mem/opt/w.json', indent=2, **kw), p.load('/mem/opt/w.json'))[1])]
+  for form, f in forms:
+    try:
+      rt = f()
+    except Exception as e:
+      hits.append(('C05/options/%s/raises-%s/%s' % (form.split('-')[0], type(e).__name__, tag),
+                   '%s of %s with %s raises %s: %s' % (form, label, kw, type(e).__name__, str(e)[:120])))
+      continue
+    for sig, what in compare_loaded(expected, rt, None, 'options/' + form.split('-')[0]):
+      hits.append(('%s/%s' % (sig, tag), '%s of %s with options %s: %s' % (form, label, kw, what)))
+  return hits
+
+def option_cases(r, n_random):
+  """systematic: every field x every candidate value (other fields at their defaults) ; random: several fields at once"""
+  OO = _PG['typed']['OO']
+  fv = option_field_values()
+  cases = []
+  for f in sorted(fv):
+    for i, mk in enumerate(fv[f]):
+      if f == 'r':
+        cases.append(('OO(r=#%d)' % i, (lambda mk=mk: OO(r=mk()))))
+      else:
+        cases.append(('OO(%s=#%d, r=0)' % (f, i), (lambda f=f, mk=mk: OO(r=0, **{f: mk()}))))
+  for _ in range(n_random):
+    fs = r.sample(sorted(fv), r.randint(2, 6))
+    picks = {f: r.randrange(len(fv[f])) for f in fs}
+    if 'r' not in picks: picks['r'] = 0
+    cases.append(('OO(%s)' % ', '.join('%s=#%d' % kv for kv in sorted(picks.items())),
+                  (lambda picks=picks: OO(**{f: fv[f][i]() for f, i in picks.items()}))))
+  return cases
+
 def special_oracle(kind, name, make):
   p = pg()
   hits = []
@@ -1375,6 +1481,28 @@ def run(ctx):
       ctx.hit(sig, clean(what), dict(part='special', kind=kind, name=name))
     ctx.count(('special', kind, name), nontrivial=True, kind='special-' + kind)
     oracle_evals += 1
+  # ---- (e) every serialization option x defaults of every kind (oracle only) ------------------------------------
+  fresh_memfs()
+  ocases = option_cases(r, ctx.scale(25, 600))
+  combos = list(option_combos())
+  nopt = 0
+  for ci, (label, mk) in enumerate(ocases):
+    if over('option-sweep', ci, len(ocases), 1.25): break
+    for opts in combos:
+      excl_choices = [()] if r.random() < 0.7 else [(), tuple(r.sample(['s', 'n', 'ln', 'a', 'da'], r.randint(1, 2)))]
+      for excl in excl_choices:
+        try:
+          hits = option_oracle(mk, opts, excl, label, ctx.thorough)
+        except Exception as e:
+          hits = [('C05/options/oracle-crashed/%s' % type(e).__name__, '%s %s: %s' % (label, opts, str(e)[:200]))]
+        for sig, what in hits:
+          ctx.hit(sig, clean(what), dict(part='options', label=label, opts=opts, exclude=list(excl)))
+        nopt += 1
+        ctx.hist('option_combination', ','.join('%s=%d' % (k, int(bool(x))) for k, x in sorted(opts.items())) + (',exclude' if excl else ''))
+    ctx.count(('options', label), nontrivial=True, kind='option-sweep')
+  oracle_evals += nopt
+  ctx.extra['option_sweep'] = dict(values=len(ocases), option_combinations=len(combos), evaluations=nopt,
+                                   what='every field of OO x every candidate value (default, all-default instance, empty container, non-default) x every combination of hide_default_values / hide_frozen / use_inferred (+ exclude_keys) x to_json / to_json_str / indent / save-load')
   ctx.extra['oracle_evaluations'] = oracle_evals
 
   # ---- model -----------------------------------------------------------------------------------------
@@ -1427,6 +1555,17 @@ def replay(ctx, rp):
     for kind, name, make in special_objects():
       if kind == c['kind'] and name == c['name']:
         hits = special_oracle(kind, name, make)
+  elif part == 'options':
+    fresh_memfs()
+    for label, mk in option_cases(__import__('random').Random(0), 0):
+      if label == c['label']:
+        hits = option_oracle(mk, c['opts'], tuple(c.get('exclude', [])), label)
+    if not hits and not any(label == c['label'] for label, _ in option_cases(__import__('random').Random(0), 0)):
+      # a random combination: rebuild it from its label
+      import re
+      fv = option_field_values(); OO = _PG['typed']['OO']
+      picks = {m.group(1): int(m.group(2)) for m in re.finditer(r'(\w+)=#(\d+)', c['label'])}
+      hits = option_oracle(lambda: OO(**{f: fv[f][i]() for f, i in picks.items()}), c['opts'], tuple(c.get('exclude', [])), c['label'])
   elif part == 'bare-name':
     d = os.path.join(ctx.workdir, 'bare'); os.makedirs(d, exist_ok=True)
     cwd = os.getcwd()
